@@ -9,7 +9,7 @@ import artgen
 PROPS = {
     'C01': ['Properties/Properties_C01.v', 'Properties/Properties_C01b.v', 'Properties/Properties_C01g.v'],
     'C02': ['Properties/Properties_C02.v', 'Properties/Properties_C02g.v'],
-    'C10': ['Properties/Properties_C10.v', 'Properties/Properties_C10g.v'],
+    'C10': ['Properties/Properties_C10.v', 'Properties/Properties_C10g.v', 'Properties/Properties_C10h.v'],
 }
 OPS_OF = {'C01': 'NIRGEC', 'C02': 'SFQ', 'C10': 'D'}
 CLASSES = ['db', 'mutex', 'olc']
@@ -45,8 +45,18 @@ def run_impl(cls, kind, lines, timeout=900):
 
 
 def run_model(zline, lines, timeout=900):
-    rc, o, e = sh([os.path.join(OCAML, 'art_run')], input=zline + '\n' + '\n'.join(lines) + '\n', timeout=timeout)
+    # 'blocks': D lines also carry the live multiset of block sizes (A=) and the sizes obtained / returned since the last D (T=)
+    rc, o, e = sh([os.path.join(OCAML, 'art_run'), 'blocks'], input=zline + '\n' + '\n'.join(lines) + '\n', timeout=timeout)
     return rc, o.splitlines(), e
+
+
+def alloc_fields(out):
+    """the A= (live block sizes) and T= (sizes obtained / returned since the last D) fields of a D line, or None"""
+    f = [p for p in out.split(' ') if p.startswith('A=') or p.startswith('T=')]
+    return ' '.join(f) if len(f) == 2 else None
+
+
+ALLOC_CMP = [0]   # D lines on which the implementation's live blocks were compared with the model's prediction
 
 
 def first_problem(pid, sizes, lines, impl, model):
@@ -66,6 +76,14 @@ def first_problem(pid, sizes, lines, impl, model):
             probs = orc.check_dump(a) if a != '<missing>' else ['no output']
             if pid == 'C10' and probs:
                 return (i, 'property', '; '.join(probs) + ' :: ' + a[:300])
+            if pid == 'C10':
+                # the blocks held from the allocator (and what was obtained / returned since the last dump) against the
+                # model's blocks of the tree / op_allocs, op_frees (Art/ArtAlloc.v, theorems C10h_*)
+                fa, fm = alloc_fields(a), alloc_fields(m)
+                ALLOC_CMP[0] += 1
+                if fa is None or fm is None or fa != fm:
+                    return (i, 'property', 'blocks held from / obtained from / returned to the allocator differ from the model: '
+                            'impl %s / model %s' % (fa, fm))
             if pid == 'C01' and 'VIEWBAD' in a:
                 return (i, 'property', 'a value view obtained earlier changed')
         elif rel and want is not None:
@@ -239,6 +257,7 @@ def check(pid, tier, replay=None):
         'distinct_counter_states': len(transitions),
         'disagreements_checked': total_ops,
         'disagreements_found': disagreements,
+        'alloc_comparisons': ALLOC_CMP[0],
         'exhaustive': False,
     })
     res.coverage['samples'] = samples
